@@ -901,6 +901,19 @@ class LuaASTEchoWriter(BaseLuaWriter):
                 for t in self._walk(block):
                     yield t
                 self._indent -= 1
+        if short_if and node.exp_block_pairs[-1][0] is not None:
+            # PICO-8 accepts a short-if whose "else" has nothing after it. The
+            # parser keeps no block for it, so take the keyword from the
+            # tokens.
+            peek = self._pos
+            while (peek < node.end_pos and
+                   (isinstance(self._tokens[peek], lexer.TokSpace) or
+                    isinstance(self._tokens[peek], lexer.TokComment))):
+                peek += 1
+            if (peek < node.end_pos and
+                    self._tokens[peek].matches(lexer.TokKeyword(b'else'))):
+                yield self._get_text(node, b'else')
+                yield self._get_semis(node)
         if not short_if:
             yield self._get_text(node, b'end')
 
